@@ -139,6 +139,9 @@ func (c GenCfg) Arr(r *Rng, depth int) *Val {
 }
 
 func (c GenCfg) keyValue(r *Rng) *Val {
+	if len(c.SetKeys) > 1 && r.Chance(1, 10) {
+		return VNull() // a set key that is present and null (distinct from a member that lacks the key)
+	}
 	switch r.Intn(6) {
 	case 0:
 		return VStr(c.Strs[r.Intn(len(c.Strs))])
